@@ -123,6 +123,14 @@ def set_store(
         from .codecs.databricks import DBFSStore, CommitType, DBFSURI
 
         commit_type = str(commit_type or CommitType.FULL.name).upper()
+        # The names used in the documentation.
+        commit_type = {"NONE": "NO_COMMIT", "LINKS_ONLY": "LINK_ONLY"}.get(
+            commit_type, commit_type
+        )
+        if commit_type not in CommitType.__members__:
+            raise DDSException(
+                f"Unknown commit type {commit_type}. The accepted values are 'none', 'links_only' and 'full'"
+            )
         commit_type_ = CommitType[commit_type]
 
         _store_var = DBFSStore(
